@@ -8,10 +8,10 @@ Open Scope N_scope.
 Lemma sx_eqb_refl a : sx_eqb a a = true.
 Proof. unfold sx_eqb, list_N_eqb. destruct (list_eq_dec N.eq_dec (print a) (print a)); congruence. Qed.
 
-Lemma check_run O H : forall sts m, check O H sts m (run O H sts m) = [].
+Lemma check_run O H : forall sts lk m, check O H sts lk m (run O H sts lk m) = [].
 Proof.
-  induction sts as [|st r IH]; intros m; [reflexivity|].
-  cbn [run check]. destruct (do_step O H st m) as [mo res].
+  induction sts as [|st r IH]; intros lk m; [reflexivity|].
+  cbn [run check]. destruct (do_step_l O H st lk m) as [[mo res] lk'].
   unfold res_eqb, tbl_eqb. rewrite !sx_eqb_refl. cbn [app]. apply IH.
 Qed.
 
